@@ -317,3 +317,72 @@ def reserved_slot_written(ctx, s, name, cursor_param, buf_param):
           "the slot the cursor stepped over on entry (the string count) is written on every path to Ok" if ok else
           "a path returns Ok without writing the slot reserved at the entry cursor position (the tag's string count): the field "
           "keeps whatever the caller's buffer held")
+
+
+def tag_count_agreement(ctx, s):
+    """S-REL: read_tags_array sizes the offset table from a counting pass (count_tags) and fills it in a reading pass.  The two
+    passes do not read strings the same way (bytes vs. code points), so the function must itself check that they agree: the
+    slot written for tag number n lies inside the table (n < counted), and Ok is returned only when the number read equals
+    the number counted.  Without these the header describes a different array from the one written."""
+    from ..prove import lin_add, lin_const
+    fn = ctx.fn(parsers.JP + "read_tags_array")
+    an = ctx.E.an(fn)
+    P = ctx.E.prover(fn)
+    ctx.functions.add(fn.path)
+    counted = None
+    for b, info in an.calls():
+        if s.nice(info["callee"] or "") == parsers.JP + "count_tags":
+            counted = ("proj", ("proj", ("try", info["value"]), ("dc", 0)), ("f", 0))
+    if counted is None:
+        s.add("S-REL", fn, "tag-count-agreement", "read_tags_array", fn.sp, UNDECIDED,
+              "no separate counting pass found: not decided")
+        return
+    loops = an.cfg.natural_loops()
+    # the slot writes: put(output, 4 + 2 * n, ..) with n a loop variable
+    n_var = None
+    slot_sites = []
+    for b, info in an.calls():
+        if s.nice(info["callee"] or "") != "pocket_types::json::put" or len(info["args"]) < 3:
+            continue
+        l = P.lin(info["args"][1])
+        phis = [(a, k) for a, k in l[1] if a[0] == "phi" and a[1] in loops and k == 2]
+        if phis and l[0] == 4 and len(l[1]) == 1:
+            n_var = phis[0][0]
+            slot_sites.append((b, info))
+    if n_var is None:
+        s.add("S-REL", fn, "tag-count-agreement", "read_tags_array", fn.sp, UNDECIDED,
+              "the per-tag offset slot write was not recognised: not decided")
+        return
+    ln, lc = P.lin(n_var), P.lin(counted)
+    for b, info in slot_sites:
+        g = lin_add(lin_add(ln, lc, -1), lin_const(1))          # n + 1 <= counted
+        facts = ctx.E.facts(fn, b)
+        ok = P.prove_le0(g, facts) or ctx.E.prove_inductive(fn, g, b, facts)
+        s.add("S-REL", fn, "tag-count-agreement", "slot<counted", info["sp"], PROVED if ok else VIOLATION,
+              "the offset slot written for a tag lies inside the table sized by the counting pass" if ok else
+              "the offset slot of a tag can lie beyond the table the counting pass sized (nothing compares the tags read with "
+              "the tags counted): where the two passes disagree the offsets overwrite tag data or describe strings that were "
+              "never written, and readers index out of range", b)
+    for n_, k_, v_ in s.return_kinds(fn):
+        if k_ != "ok":
+            continue
+        facts = ctx.E.facts(fn, n_)
+        # returns before the loop (no tags) are decided by the counted == 0 test
+        zero = P.prove_le0(lc, facts)
+        if zero:
+            continue
+        cfg_ = an.cfg
+        st_ = an.out_state.get(cfg_.edges[n_ - cfg_.nblocks].src) if n_ >= cfg_.nblocks else an.state_before_term(n_)
+        val = an.read(st_, n_var[2]) if st_ is not None else n_var
+        ok = False
+        for cand in (val, n_var):
+            lv = P.lin(cand)
+            g1 = lin_add(lin_add(lv, lc, -1), lin_const(1))          # n + 1 <= counted
+            g2 = lin_add(lin_add(lc, lv, -1), lin_const(-1))         # counted <= n + 1
+            if all(P.prove_le0(g, facts) or ctx.E.prove_inductive(fn, g, n_, facts) for g in (g1, g2)):
+                ok = True
+                break
+        s.add("S-REL", fn, "tag-count-agreement", "read==counted", fn.sp, PROVED if ok else VIOLATION,
+              "Ok is returned only when the number of tags read equals the number counted" if ok else
+              "Ok can be returned when the number of tags read differs from the number the header was given by the counting "
+              "pass: the value's tag count and offsets do not describe what was written", n_)
